@@ -13,12 +13,13 @@ structure LexRel (s s' : YYSt α σ) : Prop where
   yyval : s'.yyval = s.yyval
   aux : s'.aux = s.aux
   step : (s'.pos = s.pos ∧ s'.la = s.la) ∨ (s'.pos = s.pos + 1 ∧ s.la = none ∧ s'.la.isSome = true)
+  trace : s'.trace = s.trace
 
-theorem LexRel.refl (s : YYSt α σ) : LexRel s s := ⟨rfl, rfl, rfl, .inl ⟨rfl, rfl⟩⟩
+theorem LexRel.refl (s : YYSt α σ) : LexRel s s := ⟨rfl, rfl, rfl, .inl ⟨rfl, rfl⟩, rfl⟩
 
 theorem LexRel.trans {a b c : YYSt α σ} (h1 : LexRel a b) (h2 : LexRel b c) (hb : b.la.isSome = true → c = b) : LexRel a c := by
   rcases h1.step with ⟨hp, hl⟩ | ⟨hp, hl, hs⟩
-  · refine ⟨h2.stack.trans h1.stack, h2.yyval.trans h1.yyval, h2.aux.trans h1.aux, ?_⟩
+  · refine ⟨h2.stack.trans h1.stack, h2.yyval.trans h1.yyval, h2.aux.trans h1.aux, ?_, h2.trace.trans h1.trace⟩
     rcases h2.step with ⟨hp2, hl2⟩ | ⟨hp2, hl2, hs2⟩
     · exact .inl ⟨hp2.trans hp, hl2.trans hl⟩
     · exact .inr ⟨by omega, hl ▸ hl2, hs2⟩
@@ -38,7 +39,7 @@ theorem ensureLA_lex (t : YYTab) (input : Array Nat) (s s' : YYSt α σ) (tk : I
     split at h
     · cases h
     · cases h
-      exact ⟨⟨rfl, rfl, rfl, .inr ⟨rfl, hla, rfl⟩⟩, rfl⟩
+      exact ⟨⟨rfl, rfl, rfl, .inr ⟨rfl, hla, rfl⟩, rfl⟩, rfl⟩
 
 theorem yyTryShift_lex (t : YYTab) (input : Array Nat) (s s' : YYSt α σ) (st : Int) (r : Option Int)
     (h : yyTryShift t input s st = .ok (s', r)) : LexRel s s' ∧ (r.isSome = true → s'.la.isSome = true) := by
@@ -145,22 +146,23 @@ inductive LRMove (sem : YYSem α σ) (s : YYSt α σ) : YYRes α σ → Prop whe
   /-- the lookahead is pushed -/
   | shift (ns : Int) (s' : YYSt α σ) : s.la.isSome = true →
       s'.stack = (ns, sem.tokVal (s.pos - 1)) :: s.stack → s'.yyval = sem.tokVal (s.pos - 1) →
-      s'.aux = s.aux → s'.pos = s.pos → s'.la = none → LRMove sem s (.cont s')
+      s'.aux = s.aux → s'.pos = s.pos → s'.la = none → s.trace <:+ s'.trace → LRMove sem s (.cont s')
   /-- the run ends (accepted, or recovery gave up); entries may have been popped -/
   | stop (code : Nat) (s' : YYSt α σ) : s'.stack <:+ s.stack → s'.yyval = s.yyval → s'.aux = s.aux →
-      s'.pos = s.pos → s'.la = s.la → LRMove sem s (.done code s')
+      s'.pos = s.pos → s'.la = s.la → s.trace <:+ s'.trace → LRMove sem s (.done code s')
   /-- recovery drops the lookahead -/
   | discard (s' : YYSt α σ) : s'.stack = s.stack → s'.yyval = s.yyval → s'.aux = s.aux → s'.pos = s.pos →
-      s'.la = none → LRMove sem s (.cont s')
+      s'.la = none → s.trace <:+ s'.trace → LRMove sem s (.cont s')
   /-- recovery pops entries and pushes the error token, whose value is the current `yyVAL` -/
   | errShift (ns : Int) (st : List (Int × α)) (s' : YYSt α σ) : st <:+ s.stack → s'.stack = (ns, s.yyval) :: st →
-      s'.yyval = s.yyval → s'.aux = s.aux → s'.pos = s.pos → s'.la = s.la → LRMove sem s (.cont s')
+      s'.yyval = s.yyval → s'.aux = s.aux → s'.pos = s.pos → s'.la = s.la → s.trace <:+ s'.trace →
+      (∃ e, YYEv.errShift e ∈ s'.trace) → LRMove sem s (.cont s')
   /-- a reduction: the top `n` values become `$1…$n` of an action, whose result replaces them -/
   | reduce (yyn ns : Int) (n : Nat) (args : List α) (rest : List (Int × α)) (v : α) (aux' : σ) (s' : YYSt α σ) :
       popN n s.stack [] = some (args, rest) →
       sem.reduce s.aux yyn args (yyDflt sem args) s.pos = .ok (v, aux') →
       s'.stack = (ns, v) :: rest → s'.yyval = v → s'.aux = aux' → s'.pos = s.pos → s'.la = s.la →
-      LRMove sem s (.cont s')
+      s.trace <:+ s'.trace → (∃ st, YYEv.reduce yyn st ∈ s'.trace) → LRMove sem s (.cont s')
 
 theorem errPop_suffix (t : YYTab) : ∀ (stk : List (Int × α)) (tr : List YYEv) (ns : Int) (st : List (Int × α)) (tr' : List YYEv),
     errPop t stk tr = .ok (some (ns, st), tr') → st <:+ stk
@@ -173,6 +175,20 @@ theorem errPop_suffix (t : YYTab) : ∀ (stk : List (Int × α)) (tr : List YYEv
       exact List.suffix_refl _
     · exact List.IsSuffix.trans (errPop_suffix t rest _ ns st tr' h) (List.suffix_cons _ _)
 
+theorem errPop_trace_suffix (t : YYTab) : ∀ (stk : List (Int × α)) (tr : List YYEv) (r : Option (Int × List (Int × α))) (tr' : List YYEv),
+    errPop t stk tr = .ok (r, tr') → tr <:+ tr'
+  | [], tr, r, tr', h => by
+    simp only [errPop] at h
+    cases h
+    exact List.suffix_refl _
+  | (s0, v) :: rest, tr, r, tr', h => by
+    unfold errPop at h
+    split at h
+    · cases h
+    · cases h
+      exact List.suffix_refl _
+    · exact List.IsSuffix.trans (List.suffix_cons _ _) (errPop_trace_suffix t rest _ r tr' h)
+
 /-- the stack half of a round is a move of M-LR -/
 theorem yyApply_LR (t : YYTab) (sem : YYSem α σ) (s : YYSt α σ) (st : Int) (m : YYMove) (r : YYRes α σ)
     (h : yyApply t sem s st m = .ok r) (hla : ∀ ns, m = .shift ns → s.la.isSome = true) : LRMove sem s r := by
@@ -180,19 +196,19 @@ theorem yyApply_LR (t : YYTab) (sem : YYSem α σ) (s : YYSt α σ) (st : Int) (
   | shift ns =>
     simp only [yyApply, pure, Except.pure] at h
     cases h
-    exact .shift ns _ (hla ns rfl) rfl rfl rfl rfl rfl
+    exact .shift ns _ (hla ns rfl) rfl rfl rfl rfl rfl (List.suffix_cons _ _)
   | accept =>
     simp only [yyApply, pure, Except.pure] at h
     cases h
-    exact .stop 0 _ (List.suffix_refl _) rfl rfl rfl rfl
+    exact .stop 0 _ (List.suffix_refl _) rfl rfl rfl rfl (List.suffix_cons _ _)
   | discardEof =>
     simp only [yyApply, pure, Except.pure] at h
     cases h
-    exact .stop 1 _ (List.suffix_refl _) rfl rfl rfl rfl
+    exact .stop 1 _ (List.suffix_refl _) rfl rfl rfl rfl (List.IsSuffix.trans (List.suffix_cons _ _) (List.suffix_cons _ _))
   | discard =>
     simp only [yyApply, pure, Except.pure] at h
     cases h
-    exact .discard _ rfl rfl rfl rfl rfl
+    exact .discard _ rfl rfl rfl rfl rfl (List.suffix_cons _ _)
   | recover fresh =>
     simp only [yyApply, bind, Except.bind, pure, Except.pure] at h
     split at h
@@ -203,15 +219,31 @@ theorem yyApply_LR (t : YYTab) (sem : YYSem α σ) (s : YYSt α σ) (st : Int) (
       | none =>
         simp only at h
         cases h
-        refine .stop 1 _ List.nil_suffix ?_ ?_ ?_ ?_ <;> (cases fresh <;> rfl)
+        have htr := errPop_trace_suffix t _ _ _ tr hx
+        refine .stop 1 _ List.nil_suffix ?_ ?_ ?_ ?_ ?_
+        · cases fresh <;> rfl
+        · cases fresh <;> rfl
+        · cases fresh <;> rfl
+        · cases fresh <;> rfl
+        · cases fresh
+          · exact List.IsSuffix.trans htr (List.suffix_cons _ _)
+          · exact List.IsSuffix.trans (List.IsSuffix.trans (List.suffix_cons _ _) htr) (List.suffix_cons _ _)
       | some p =>
         obtain ⟨ns, st'⟩ := p
         simp only at h
         cases h
         have hs := errPop_suffix t _ _ ns st' tr hx
-        refine .errShift ns st' _ ?_ ?_ ?_ ?_ ?_ ?_
+        have htr := errPop_trace_suffix t _ _ _ tr hx
+        refine .errShift ns st' _ ?_ ?_ ?_ ?_ ?_ ?_ ?_ ⟨ns, List.mem_cons_self ..⟩
         · cases fresh <;> exact hs
-        all_goals (cases fresh <;> rfl)
+        · cases fresh <;> rfl
+        · cases fresh <;> rfl
+        · cases fresh <;> rfl
+        · cases fresh <;> rfl
+        · cases fresh <;> rfl
+        · cases fresh
+          · exact List.IsSuffix.trans htr (List.suffix_cons _ _)
+          · exact List.IsSuffix.trans (List.IsSuffix.trans (List.suffix_cons _ _) htr) (List.suffix_cons _ _)
   | reduce yyn =>
     simp only [yyApply, bind, Except.bind, pure, Except.pure] at h
     split at h
@@ -232,7 +264,7 @@ theorem yyApply_LR (t : YYTab) (sem : YYSem α σ) (s : YYSt α σ) (st : Int) (
               · cases h
               · rename_i v aux' hred
                 cases h
-                exact .reduce yyn ns n.toNat args _ v aux' _ hpop hred rfl rfl rfl rfl rfl
+                exact .reduce yyn ns n.toNat args _ v aux' _ hpop hred rfl rfl rfl rfl rfl (List.suffix_cons _ _) ⟨_, List.mem_cons_self ..⟩
 
 /-- every round of the driver model is: read at most one token, then make one M-LR move -/
 theorem yyStep_LR (t : YYTab) (sem : YYSem α σ) (input : Array Nat) (s : YYSt α σ) (r : YYRes α σ)
@@ -301,7 +333,7 @@ theorem StInv_move {P : Nat → α → Prop} {Q : Nat → σ → Prop} {sem : YY
     {s : YYSt α σ} {r : YYRes α σ} (h : LRMove sem s r) (hi : StInv P Q s) : StInv P Q (resState r) := by
   obtain ⟨h1, h2, h3, h4⟩ := hi
   cases h with
-  | shift ns s' hla hstk hval haux hpos hlan =>
+  | shift ns s' hla hstk hval haux hpos hlan _ =>
     have hp : 0 < s.pos := h4 hla
     have ht : P s.pos (sem.tokVal (s.pos - 1)) := by
       have := hs.tok (s.pos - 1)
@@ -316,19 +348,19 @@ theorem StInv_move {P : Nat → α → Prop} {Q : Nat → σ → Prop} {sem : YY
     · rw [hval, hpos]; exact ht
     · rw [haux, hpos]; exact h3
     · rw [hlan]; intro hh; cases hh
-  | stop code s' hsuf hval haux hpos hla =>
+  | stop code s' hsuf hval haux hpos hla _ =>
     refine ⟨?_, ?_, ?_, ?_⟩ <;> simp only [resState]
     · intro e he; rw [hpos]; exact h1 e (hsuf.subset he)
     · rw [hval, hpos]; exact h2
     · rw [haux, hpos]; exact h3
     · rw [hla, hpos]; exact h4
-  | discard s' hstk hval haux hpos hlan =>
+  | discard s' hstk hval haux hpos hlan _ =>
     refine ⟨?_, ?_, ?_, ?_⟩ <;> simp only [resState]
     · intro e he; rw [hstk] at he; rw [hpos]; exact h1 e he
     · rw [hval, hpos]; exact h2
     · rw [haux, hpos]; exact h3
     · rw [hlan]; intro hh; cases hh
-  | errShift ns st s' hsuf hstk hval haux hpos hla =>
+  | errShift ns st s' hsuf hstk hval haux hpos hla _ _ =>
     refine ⟨?_, ?_, ?_, ?_⟩ <;> simp only [resState]
     · intro e he
       rw [hstk] at he
@@ -339,7 +371,7 @@ theorem StInv_move {P : Nat → α → Prop} {Q : Nat → σ → Prop} {sem : YY
     · rw [hval, hpos]; exact h2
     · rw [haux, hpos]; exact h3
     · rw [hla, hpos]; exact h4
-  | reduce yyn ns n args rest v aux' s' hpop hred hstk hval haux hpos hla =>
+  | reduce yyn ns n args rest v aux' s' hpop hred hstk hval haux hpos hla _ _ =>
     have hspec := popN_spec n s.stack [] args rest hpop
     have hargs : ∀ a ∈ args, P s.pos a := by
       intro a ha
